@@ -97,6 +97,59 @@ impl PartialEq for Tr {
     }
 }
 
+impl Eq for Tr {}
+impl PartialOrd for Tr {
+    fn partial_cmp(&self, o: &Tr) -> Option<std::cmp::Ordering> {
+        Some(self.val.cmp(&o.val))
+    }
+}
+impl Ord for Tr {
+    fn cmp(&self, o: &Tr) -> std::cmp::Ordering {
+        self.val.cmp(&o.val)
+    }
+}
+impl std::hash::Hash for Tr {
+    fn hash<H: std::hash::Hasher>(&self, h: &mut H) {
+        self.val.hash(h)
+    }
+}
+impl std::fmt::Display for Tr {
+    fn fmt(&self, f: &mut std::fmt::Formatter) -> std::fmt::Result {
+        write!(f, "tr#{}", self.val)
+    }
+}
+
+/// A future that is ready after `n` polls (for Box<F: Future> forwarding).
+pub struct ReadyAfter(pub u32, pub i64);
+impl std::future::Future for ReadyAfter {
+    type Output = i64;
+    fn poll(mut self: std::pin::Pin<&mut Self>, _cx: &mut std::task::Context<'_>) -> std::task::Poll<i64> {
+        if self.0 == 0 {
+            std::task::Poll::Ready(self.1)
+        } else {
+            self.0 -= 1;
+            std::task::Poll::Pending
+        }
+    }
+}
+
+pub fn noop_waker() -> std::task::Waker {
+    use std::task::{RawWaker, RawWakerVTable, Waker};
+    fn clone(_: *const ()) -> RawWaker {
+        RawWaker::new(std::ptr::null(), &VT)
+    }
+    fn noop(_: *const ()) {}
+    static VT: RawWakerVTable = RawWakerVTable::new(clone, noop, noop, noop);
+    unsafe { Waker::from_raw(RawWaker::new(std::ptr::null(), &VT)) }
+}
+
+fn hash_of<T: std::hash::Hash + ?Sized>(t: &T) -> u64 {
+    use std::hash::Hasher;
+    let mut h = std::collections::hash_map::DefaultHasher::new();
+    t.hash(&mut h);
+    h.finish()
+}
+
 /// Zero-sized element with an observable destructor (counted, not identified).
 #[derive(Debug)]
 pub struct Zt;
@@ -199,6 +252,13 @@ pub enum COp {
     BoxRawRoundTrip { b: usize },
     BoxFromIter { b: usize, vals: Vec<i64> },
     BoxRead { b: usize },
+    /// forwarding impls of Box to its value; kind 0 comparisons+hash (values a, b), 1 iterator, 2 hasher,
+    /// 3 formatting, 4 future, 5 deref/as_ref/borrow/pin
+    BoxForward { kind: u8, a: i64, b: i64 },
+    /// Box<Tr> -> Box<dyn Any (+ Send)> -> downcast to the matching / a non-matching type
+    BoxDowncast { b: usize, matching: bool, send: bool },
+    /// Box<[Tr; 3]> -> Box<[Tr]> -> TryFrom back with N = 3 (back = true) or N = 2 (must hand the slice back)
+    BoxArray { b: usize, vals: Vec<i64>, back: bool },
     /// drop everything the caller still holds (returned elements)
     DropHeld,
     /// neighbour traffic in the same arena: raw canary block
@@ -238,6 +298,11 @@ pub struct CEvent {
     pub bx: Vec<Vec<[i64; 2]>>,   // contents of every box slot after the call ([[-1,-1]] = none)
     pub pp: u8,        // 1 if the programmed callback panic fired during this call
     pub cbargs: Vec<[i64; 2]>, // arguments (ids) of each call of a two-argument callback, in order
+    pub ty: String,    // element kind: "T" tracked (ids), "Z" zero-sized (counted), "C" Copy values (no identity)
+    pub zc: i64,       // zero-sized elements created during the call
+    pub zd: i64,       // zero-sized elements dropped during the call
+    pub zr: i64,       // zero-sized elements handed to the caller by the call
+    pub zlen0: i64,    // length before the call (Z)
     pub alive2: u8,
     pub len: i64,
     pub cap: i64,
@@ -258,7 +323,7 @@ pub struct CEvent {
 }
 
 pub fn base(op: &str) -> CEvent {
-    CEvent { op: op.into(), v: -1, w: -1, a: -1, b: -1, flag: -1, retn: -1, len: -1, cap: -1, cap0: -1, canary_ok: 1, utf8: 1, res: "ok".into(), ..Default::default() }
+    CEvent { op: op.into(), ty: "T".into(), v: -1, w: -1, a: -1, b: -1, flag: -1, retn: -1, len: -1, cap: -1, cap0: -1, canary_ok: 1, utf8: 1, res: "ok".into(), ..Default::default() }
 }
 
 fn ids<'a, I: IntoIterator<Item = &'a Tr>>(it: I) -> Vec<[i64; 2]> {
@@ -912,6 +977,161 @@ macro_rules! interp {
                                 }
                             });
                         }
+                        COp::BoxForward { kind, a, b } => {
+                            let mut ev = base("box_forward");
+                            ev.a = kind as i64;
+                            ev.vals = vec![a, b];
+                            self.call(ev, -1, -1, |s, ev| {
+                                let _g = rec::pause();
+                                let mut bad: i64 = 0;
+                                let mut chk = |i: u32, ok: bool| {
+                                    if !ok {
+                                        bad |= 1 << i;
+                                    }
+                                };
+                                match kind {
+                                    0 => {
+                                        let (x, y) = (Tr::new(a), Tr::new(b));
+                                        let (vx, vy) = (a, b);
+                                        let bx: $B = box_new!($modname, s.bump, x);
+                                        let by: $B = box_new!($modname, s.bump, y);
+                                        chk(0, (bx == by) == (vx == vy));
+                                        chk(1, (bx != by) == (vx != vy));
+                                        chk(2, (bx < by) == (vx < vy));
+                                        chk(3, (bx <= by) == (vx <= vy));
+                                        chk(4, (bx > by) == (vx > vy));
+                                        chk(5, (bx >= by) == (vx >= vy));
+                                        chk(6, bx.cmp(&by) == vx.cmp(&vy));
+                                        chk(7, bx.partial_cmp(&by) == vx.partial_cmp(&vy));
+                                        chk(8, hash_of(&bx) == hash_of(&vx));
+                                        chk(9, std::cmp::max(&bx, &by).val == std::cmp::max(vx, vy));
+                                    }
+                                    1 => {
+                                        let data: Vec<i64> = (0..(a.max(0) as usize + 5)).map(|i| i as i64 * 3 + b).collect();
+                                        let mut plain = data.clone().into_iter();
+                                        let mut boxed = box_any!($modname, s.bump, data.clone().into_iter());
+                                        chk(0, boxed.size_hint() == plain.size_hint());
+                                        chk(1, boxed.len() == plain.len());
+                                        chk(2, boxed.next() == plain.next());
+                                        chk(3, boxed.nth(1) == plain.nth(1));
+                                        chk(4, boxed.next_back() == plain.next_back());
+                                        chk(5, boxed.nth_back(1) == plain.nth_back(1));
+                                        chk(6, boxed.size_hint() == plain.size_hint());
+                                        chk(7, boxed.len() == plain.len());
+                                        chk(8, boxed.last() == plain.last());
+                                    }
+                                    2 => {
+                                        use std::hash::Hasher;
+                                        let mut plain = std::collections::hash_map::DefaultHasher::new();
+                                        let mut boxed = box_any!($modname, s.bump, std::collections::hash_map::DefaultHasher::new());
+                                        macro_rules! both { ($m:ident, $v:expr) => { plain.$m($v); boxed.$m($v); } }
+                                        both!(write_u8, a as u8);
+                                        chk(0, boxed.finish() == plain.finish());
+                                        both!(write_u16, b as u16);
+                                        chk(1, boxed.finish() == plain.finish());
+                                        both!(write_u32, a as u32 ^ 0xABCD);
+                                        chk(2, boxed.finish() == plain.finish());
+                                        both!(write_u64, b as u64 ^ 0x1234_5678_9ABC);
+                                        chk(3, boxed.finish() == plain.finish());
+                                        both!(write_u128, (a as u128) << 70 | b as u128);
+                                        chk(4, boxed.finish() == plain.finish());
+                                        both!(write_usize, a as usize + 7);
+                                        chk(5, boxed.finish() == plain.finish());
+                                        both!(write_i8, -(a as i8));
+                                        chk(6, boxed.finish() == plain.finish());
+                                        both!(write_i16, -(b as i16));
+                                        chk(7, boxed.finish() == plain.finish());
+                                        both!(write_i32, -(a as i32) - 3);
+                                        chk(8, boxed.finish() == plain.finish());
+                                        both!(write_i64, -(b as i64) - 5);
+                                        chk(9, boxed.finish() == plain.finish());
+                                        both!(write_i128, -((a as i128) << 80));
+                                        chk(10, boxed.finish() == plain.finish());
+                                        both!(write_isize, -(b as isize));
+                                        chk(11, boxed.finish() == plain.finish());
+                                        both!(write, &[1u8, 2, a as u8, b as u8]);
+                                        chk(12, boxed.finish() == plain.finish());
+                                    }
+                                    3 => {
+                                        let bx: $B = box_new!($modname, s.bump, Tr::new(a));
+                                        let plain = Tr { id: bx.id, val: a };
+                                        chk(0, format!("{}", bx) == format!("{}", plain));
+                                        chk(1, format!("{:?}", bx) == format!("{:?}", plain));
+                                        chk(2, format!("{:>12}", bx) == format!("{:>12}", plain));
+                                        let addr = &*bx as *const Tr;
+                                        chk(3, format!("{:p}", bx) == format!("{:p}", addr));
+                                        std::mem::forget(plain);
+                                    }
+                                    4 => {
+                                        use std::future::Future;
+                                        let w = noop_waker();
+                                        let mut cx = std::task::Context::from_waker(&w);
+                                        let mut boxed = box_any!($modname, s.bump, ReadyAfter((a.max(0) % 3) as u32, b));
+                                        let mut plain = ReadyAfter((a.max(0) % 3) as u32, b);
+                                        for i in 0..4u32 {
+                                            let x = std::pin::Pin::new(&mut boxed).poll(&mut cx);
+                                            let y = std::pin::Pin::new(&mut plain).poll(&mut cx);
+                                            chk(i, x == y);
+                                            if x.is_ready() {
+                                                break;
+                                            }
+                                        }
+                                    }
+                                    _ => {
+                                        let mut bx: $B = box_new!($modname, s.bump, Tr::new(a));
+                                        chk(0, (*bx).val == a);
+                                        let r: &Tr = bx.as_ref();
+                                        chk(1, r.val == a);
+                                        let r2: &Tr = std::borrow::Borrow::borrow(&bx);
+                                        chk(2, r2.val == a);
+                                        (*bx).val = b;
+                                        chk(3, bx.val == b);
+                                        let m: &mut Tr = bx.as_mut();
+                                        m.val = a;
+                                        chk(4, bx.val == a);
+                                        let p = box_pin!($modname, s.bump, Tr::new(b));
+                                        chk(5, p.val == b);
+                                        let p2: std::pin::Pin<$B> = bx.into();
+                                        chk(6, p2.val == a);
+                                    }
+                                }
+                                ev.retn = bad;
+                            });
+                        }
+                        COp::BoxDowncast { b, matching, send } => {
+                            let mut ev = base("box_downcast");
+                            ev.a = b as i64;
+                            ev.flag = matching as i64;
+                            ev.b = send as i64;
+                            self.call(ev, -1, -1, |s, ev| {
+                                if let Some(bx) = s.bslot(b).take() {
+                                    let back: Option<$B> = box_downcast!($modname, bx, matching, send);
+                                    match back {
+                                        Some(bx2) => {
+                                            ev.ret.push([bx2.id, bx2.val]);
+                                            ev.retn = 1;
+                                            *s.bslot(b) = Some(bx2);
+                                        }
+                                        None => ev.retn = 0,
+                                    }
+                                }
+                            });
+                        }
+                        COp::BoxArray { b, vals, back } => {
+                            let mut ev = base("box_array");
+                            ev.a = b as i64;
+                            ev.vals = vals.clone();
+                            ev.flag = back as i64;
+                            self.call(ev, -1, -1, |s, ev| {
+                                let old = s.bsslot(b).take();
+                                drop(old);
+                                let v3 = [vals.get(0).cloned().unwrap_or(1), vals.get(1).cloned().unwrap_or(2), vals.get(2).cloned().unwrap_or(3)];
+                                let arr = [Tr::new(v3[0]), Tr::new(v3[1]), Tr::new(v3[2])];
+                                let sl: $BS = box_array_roundtrip!($modname, s.bump, arr, back);
+                                ev.ret = ids(sl.iter());
+                                *s.bsslot(b) = Some(sl);
+                            });
+                        }
                         COp::DropHeld => {
                             let ev = base("drop_held");
                             self.call(ev, -1, -1, |s, _| {
@@ -1023,6 +1243,91 @@ macro_rules! box_leak {
 macro_rules! box_raw_rt {
     (bumpi, $b:expr) => { unsafe { bumpalo::boxed::Box::from_raw(bumpalo::boxed::Box::into_raw($b)) } };
     (stdi, $b:expr) => { unsafe { std::boxed::Box::from_raw(std::boxed::Box::into_raw($b)) } };
+}
+macro_rules! box_any {
+    (bumpi, $bump:expr, $x:expr) => { bumpalo::boxed::Box::new_in($x, $bump) };
+    (stdi, $bump:expr, $x:expr) => { std::boxed::Box::new($x) };
+}
+macro_rules! box_pin {
+    (bumpi, $bump:expr, $x:expr) => { bumpalo::boxed::Box::pin_in($x, $bump) };
+    (stdi, $bump:expr, $x:expr) => { std::boxed::Box::pin($x) };
+}
+macro_rules! box_downcast {
+    (bumpi, $bx:expr, $matching:expr, $send:expr) => {{
+        use std::any::Any;
+        let raw = bumpalo::boxed::Box::into_raw($bx);
+        if $send {
+            let any: bumpalo::boxed::Box<dyn Any + Send> = unsafe { bumpalo::boxed::Box::from_raw(raw as *mut (dyn Any + Send)) };
+            if $matching {
+                match any.downcast::<Tr>() { Ok(t) => Some(t), Err(_) => None }
+            } else {
+                match any.downcast::<u32>() {
+                    Ok(_) => None,
+                    Err(orig) => match orig.downcast::<Tr>() { Ok(t) => Some(t), Err(_) => None },
+                }
+            }
+        } else {
+            let any: bumpalo::boxed::Box<dyn Any> = unsafe { bumpalo::boxed::Box::from_raw(raw as *mut dyn Any) };
+            if $matching {
+                match any.downcast::<Tr>() { Ok(t) => Some(t), Err(_) => None }
+            } else {
+                match any.downcast::<u32>() {
+                    Ok(_) => None,
+                    Err(orig) => match orig.downcast::<Tr>() { Ok(t) => Some(t), Err(_) => None },
+                }
+            }
+        }
+    }};
+    (stdi, $bx:expr, $matching:expr, $send:expr) => {{
+        use std::any::Any;
+        if $send {
+            let any: std::boxed::Box<dyn Any + Send> = $bx;
+            if $matching {
+                match any.downcast::<Tr>() { Ok(t) => Some(t), Err(_) => None }
+            } else {
+                match any.downcast::<u32>() {
+                    Ok(_) => None,
+                    Err(orig) => match orig.downcast::<Tr>() { Ok(t) => Some(t), Err(_) => None },
+                }
+            }
+        } else {
+            let any: std::boxed::Box<dyn Any> = $bx;
+            if $matching {
+                match any.downcast::<Tr>() { Ok(t) => Some(t), Err(_) => None }
+            } else {
+                match any.downcast::<u32>() {
+                    Ok(_) => None,
+                    Err(orig) => match orig.downcast::<Tr>() { Ok(t) => Some(t), Err(_) => None },
+                }
+            }
+        }
+    }};
+}
+macro_rules! box_array_roundtrip {
+    (bumpi, $bump:expr, $arr:expr, $back:expr) => {{
+        let ba: bumpalo::boxed::Box<[Tr; 3]> = bumpalo::boxed::Box::new_in($arr, $bump);
+        let sl: bumpalo::boxed::Box<[Tr]> = ba.into();
+        if $back {
+            let again: bumpalo::boxed::Box<[Tr; 3]> = match std::convert::TryFrom::try_from(sl) { Ok(x) => x, Err(_) => panic!("TryFrom with the right length failed") };
+            let sl2: bumpalo::boxed::Box<[Tr]> = again.into();
+            sl2
+        } else {
+            let r: Result<bumpalo::boxed::Box<[Tr; 2]>, bumpalo::boxed::Box<[Tr]>> = std::convert::TryFrom::try_from(sl);
+            match r { Ok(_) => panic!("TryFrom accepted a wrong length"), Err(orig) => orig }
+        }
+    }};
+    (stdi, $bump:expr, $arr:expr, $back:expr) => {{
+        let ba: std::boxed::Box<[Tr; 3]> = std::boxed::Box::new($arr);
+        let sl: std::boxed::Box<[Tr]> = ba;
+        if $back {
+            let again: std::boxed::Box<[Tr; 3]> = match std::convert::TryFrom::try_from(sl) { Ok(x) => x, Err(_) => panic!("TryFrom with the right length failed") };
+            let sl2: std::boxed::Box<[Tr]> = again;
+            sl2
+        } else {
+            let r: Result<std::boxed::Box<[Tr; 2]>, std::boxed::Box<[Tr]>> = std::convert::TryFrom::try_from(sl);
+            match r { Ok(_) => panic!("TryFrom accepted a wrong length"), Err(orig) => orig }
+        }
+    }};
 }
 macro_rules! box_from_iter {
     (bumpi, $bump:expr, $items:expr) => { bumpalo::boxed::Box::from_iter_in($items.into_iter(), $bump) };
